@@ -3,6 +3,7 @@ import CuqiVerif.Model.QMat
 import CuqiVerif.Model.RExpr
 import CuqiVerif.Model.C20
 import CuqiVerif.Model.C04
+import CuqiVerif.Model.C04_gaussobj
 open CuqiVerif CuqiVerif.Proto CuqiVerif.C04 CuqiVerif.RExpr
 
 /-!
@@ -25,6 +26,13 @@ Line protocol of the C04 driver (one line in, one line out).  Floats are printed
   sparseflag <dim>                                -> `0|1`
   zerodim <family>                                -> `0|1`  (is a 0-d ndarray parameter refused)
   mindimsparse                                    -> `75`
+  -- session 3 (Model/C04_gaussobj.lean); <stored> = `p|<kind>|<M>` | `d|<n>|<offsets>|<data>` (scipy dia_matrix) | `l|<R>|<detCov or ->` (LinearOperator)
+  gstored <form> <dim> <x> <mu> <stored>          -> as `gauss`, plus `-inf <quad>` (log-determinant +inf)
+  gobj <dim> <mean> <op> ...                      -> one answer per op, space separated
+        ops: `new~<form>=<stored>~...` (matrix keywords that are not None) | `set~<form>~<stored>` | `mean~<vec>` | `ccov` | `rcov` | `lp~<x>`
+        answers: `ok` | `E:ValueError` | `E:NotImplementedError` | `M:<matrix>` | `R` (the user's own object) | `None`
+                 | `f:<logpdf bits>` | `-inf` | `raise` | `nan` | `unsupported` | `-` (no object)
+  maxdiminv                                       -> `2000`
 -/
 
 def fmtQ (q : Rat) : String := "q:" ++ fmtRatS q
@@ -185,6 +193,121 @@ def stepMrf (fam : String) (pd : Nat) (b : C20.BC) (n : Nat) (s : Rat) (x loc : 
       s!"ok {m} {floatStr v}"
   | _ => "bad-op"
 
+/-! ### session 3: stored arguments and the Gaussian object -/
+
+def parseStored (s : String) : Option Stored :=
+  match s.splitOn "|" with
+  | ["p", k, M] => do
+      let k ← Kind.ofString k
+      let M ← parseMat M
+      some (.plain k M)
+  | ["d", n, offs, data] => do
+      let n ← n.toNat?
+      let o ← parseVec offs
+      let data ← parseMat data
+      let d : Dia := { n := n, offsets := o.map (·.num), data := data }
+      if o.all (·.den = 1) && d.wellFormed then some (.dia d) else none
+  | ["l", R, dc] => do
+      let R ← parseMat R
+      if dc = "-" then some (.linop R none) else do
+        let q ← parseRat dc
+        some (.linop R (some q))
+  | _ => none
+
+def checkedInverse (P : QMat.Mat) : Option QMat.Mat :=
+  match QMat.inverse P with
+  | some C => if QMat.isInverse P C then some C else none
+  | none => none
+
+/-- `inv(sqrtprec.T @ sqrtprec)` for a stored argument, exact and certificate-checked -/
+def denoteCov (form : Form) (s : Stored) (dim : Nat) : Option QMat.Mat :=
+  match canonStored form dim s with
+  | .base (.ok c) => canonCov c
+  | .base (.noLogdet P) => checkedInverse P
+  | .negInf P => checkedInverse P
+  | _ => none
+
+def devOf (dim : Nat) (x mu : List Rat) : List Rat := (List.range dim).map fun j => x.getD j 0 - bc 0 mu j
+
+/-- logpdf outcome of a converted argument at deviation `z` (long form: as the `gauss` op) -/
+def renderSRes (r : SRes) (dim : Nat) (z : List Rat) (long : Bool) : String :=
+  match r with
+  | .negInf P => if long then s!"-inf {fmtQ (quadForm dim (fn2 P) (fn z))}" else "-inf"
+  | .base .raises => "raise"
+  | .base .nan => "nan"
+  | .base .unsupported => "unsupported"
+  | .base (.noLogdet P) => if long then s!"nologdet {fmtQ (quadForm dim (fn2 P) (fn z))}" else "E:NotImplementedError"
+  | .base (.ok c) =>
+    match gaussQuadOf c dim z with
+    | none => "unsupported"
+    | some quad =>
+      let (lp, lup) := gaussFloats c quad
+      if long then s!"ok {c.rank} {fmtQ c.detCov} {fmtQ quad} {floatStr lp} {floatStr lup}" else floatStr lp
+
+def stepGStored (form : Form) (dim : Nat) (x mu : List Rat) (s : Stored) : String :=
+  if x.length ≠ dim || !(mu.length = 1 || mu.length = dim) then "raise" else
+  renderSRes (canonStored form dim s) dim (devOf dim x mu) true
+
+def parseKw (t : String) : Option (Form × Stored) :=
+  match t.splitOn "=" with
+  | [f, s] => do
+      let f ← Form.ofString f
+      let s ← parseStored s
+      some (f, s)
+  | _ => none
+
+/-- one operation on the object: (answer, new state); `none` state: no object was constructed -/
+def objOp (o? : Option GObj) (dim : Nat) (mean0 : List Rat) (tok : String) : String × Option GObj :=
+  match tok.splitOn "~" with
+  | "new" :: kws =>
+    match kws.mapM parseKw with
+    | none => ("bad-op", none)
+    | some args =>
+      match construct dim mean0 args with
+      | .ok o => ("ok", some o)
+      | .error e => (e.toString, none)
+  | parts =>
+    match o? with
+    | none => ("-", none)
+    | some o =>
+      match parts with
+      | ["set", f, s] =>
+        match Form.ofString f, parseStored s with
+        | some f, some s =>
+          match setMain o f s with
+          | .ok o' => ("ok", some o')
+          | .error e => (e.toString, some o)
+        | _, _ => ("bad-op", some o)
+      | ["mean", m] =>
+        match parseVec m with
+        | some m => ("ok", some (setMean o m))
+        | none => ("bad-op", some o)
+      | ["ccov"] =>
+        match computeCov denoteCov o with
+        | .ok (some C, o') => (s!"M:{fmtMat C}", some o')
+        | .ok (none, o') => ("unsupported", some o')
+        | .error e => (e.toString, some o)
+      | ["rcov"] =>
+        match getCov o with
+        | .ok .none_ => ("None", some o)
+        | .ok (.raw _) => ("R", some o)
+        | .ok (.full C) => (s!"M:{fmtMat C}", some o)
+        | .error e => (e.toString, some o)
+      | ["lp", x] =>
+        match parseVec x, o.main with
+        | some x, some s =>
+          if x.length ≠ o.dim || !(o.mean.length = 1 || o.mean.length = o.dim) then ("raise", some o)
+          else (renderSRes (canonStored o.form o.dim s) o.dim (devOf o.dim x o.mean) false, some o)
+        | some _, none => ("E:NotImplementedError", some o)
+        | none, _ => ("bad-op", some o)
+      | _ => ("bad-op", some o)
+
+def stepGObj (dim : Nat) (mean0 : List Rat) (ops : List String) : String :=
+  let (outs, _) := ops.foldl (fun (acc : List String × Option GObj) tok =>
+    let (a, o') := objOp acc.2 dim mean0 tok
+    (acc.1 ++ [a], o')) ([], none)
+  " ".intercalate outs
+
 def vecOr (s : String) : Option (List Rat) := if s = "-" then some [] else parseVec s
 
 def step : List String → String
@@ -231,6 +354,15 @@ def step : List String → String
     | none => "bad-op"
   | ["zerodim", fam] => fmtBool (zeroDimArrayRaises fam)
   | ["mindimsparse"] => toString MIN_DIM_SPARSE
+  | ["maxdiminv"] => toString MAX_DIM_INV
+  | ["gstored", form, dim, x, mu, st] =>
+    match Form.ofString form, dim.toNat?, parseVec x, parseVec mu, parseStored st with
+    | some form, some dim, some x, some mu, some st => stepGStored form dim x mu st
+    | _, _, _, _, _ => "bad-op"
+  | "gobj" :: dim :: mean :: ops =>
+    match dim.toNat?, parseVec mean with
+    | some dim, some mean => if ops.isEmpty then "bad-op" else stepGObj dim mean ops
+    | _, _ => "bad-op"
   | _ => "bad-op"
 
 def main : IO Unit := runDriver step
